@@ -3,7 +3,8 @@ import OZ.Lemmas.Vault
 C05 — Vault share accounting always rounds in the vault's favour.
 
 Property theorems only (helper lemmas, the invariant `WF` and the statement vocabulary
-`MovedIn / MovedOut / RateLe / roundedOrOverflow` live in OZ/Lemmas/Vault.lean). The model
+`MovedIn / MovedOut / RateLe / roundedOrOverflow / CanSpend / CanPull` live in
+OZ/Lemmas/Vault.lean; the allowance lemmas of C02, OZ/Lemmas/FungibleAuth.lean, are reused). The model
 (OZ/Model/Vault.lean) mirrors `impl Vault` of packages/tokens/src/vault/storage.rs as wired by
 examples/fungible-vault: a share token and an asset token that are both the library's `Base`
 token (OZ/Model/Fungible.lean, C01), and conversions that call the C12 mul-div model with
@@ -612,6 +613,266 @@ example :
     previewWithdraw phantomState 1000000000000000000000000000007 = .ok 10000000001000000000293000001 ∧
     previewMint phantomState 10000000000000000000000000000000000000 = .error .fixedPoint := by decide
 
+/-! ## 9. allowances are spent exactly (as the `allowance` getter reads them, expiry included) -/
 
+/-- **exits**: after a successful `withdraw` / `redeem` by an operator who is not the owner,
+`allowance(owner, operator)` on the share token reads exactly the burned shares less; every
+other share allowance — and, when the operator IS the owner, every share allowance — and
+every asset allowance reads exactly what it read before -/
+theorem exit_allowance_exact {c : Cfg} {s s' : State} {auth : List Nat} {x ret : Int} {r ow o : Nat} :
+    (withdraw c s auth x r ow o = .ok (s', ret) →
+      (o ≠ ow → OZ.Fungible.allowance s'.sh ow o = OZ.Fungible.allowance s.sh ow o - ret) ∧
+      (∀ p q, ¬ (p = ow ∧ q = o ∧ o ≠ ow) → OZ.Fungible.allowance s'.sh p q = OZ.Fungible.allowance s.sh p q) ∧
+      (∀ p q, OZ.Fungible.allowance s'.ast p q = OZ.Fungible.allowance s.ast p q)) ∧
+    (redeem c s auth x r ow o = .ok (s', ret) →
+      (o ≠ ow → OZ.Fungible.allowance s'.sh ow o = OZ.Fungible.allowance s.sh ow o - x) ∧
+      (∀ p q, ¬ (p = ow ∧ q = o ∧ o ≠ ow) → OZ.Fungible.allowance s'.sh p q = OZ.Fungible.allowance s.sh p q) ∧
+      (∀ p q, OZ.Fungible.allowance s'.ast p q = OZ.Fungible.allowance s.ast p q)) := by
+  constructor
+  · intro h
+    obtain ⟨_, -, h⟩ := bind_eq_ok h
+    obtain ⟨m, -, h⟩ := bind_eq_ok h
+    obtain ⟨_, -, h⟩ := bind_eq_ok h
+    obtain ⟨v', -, h⟩ := bind_eq_ok h
+    obtain ⟨s1, h4, h5⟩ := bind_eq_ok h
+    injection h5 with h5; injection h5 with h5 h6; subst h5; subst h6
+    obtain ⟨a1, a2, a3, -⟩ := withdrawInternal_allowances h4
+    exact ⟨a1, a2, a3⟩
+  · intro h
+    obtain ⟨_, -, h⟩ := bind_eq_ok h
+    obtain ⟨_, -, h⟩ := bind_eq_ok h
+    obtain ⟨a', -, h⟩ := bind_eq_ok h
+    obtain ⟨s1, h4, h5⟩ := bind_eq_ok h
+    injection h5 with h5; injection h5 with h5 h6; subst h5; subst h6
+    obtain ⟨a1, a2, a3, -⟩ := withdrawInternal_allowances h4
+    exact ⟨a1, a2, a3⟩
+
+/-- **entries**: after a successful `deposit` / `mint` by an operator who is not the payer the
+ASSET allowance `payer → operator` (the one `transfer_from` consumes) reads exactly the
+transferred assets less; every other asset allowance and every share allowance is unchanged -/
+theorem entry_allowance_exact {c : Cfg} {s s' : State} {auth : List Nat} {sub : Bool} {x ret : Int}
+    {r f o : Nat} :
+    (deposit c s auth sub x r f o = .ok (s', ret) →
+      (o ≠ f → OZ.Fungible.allowance s'.ast f o = OZ.Fungible.allowance s.ast f o - x) ∧
+      (∀ p q, ¬ (p = f ∧ q = o ∧ o ≠ f) → OZ.Fungible.allowance s'.ast p q = OZ.Fungible.allowance s.ast p q) ∧
+      (∀ p q, OZ.Fungible.allowance s'.sh p q = OZ.Fungible.allowance s.sh p q)) ∧
+    (mint c s auth sub x r f o = .ok (s', ret) →
+      (o ≠ f → OZ.Fungible.allowance s'.ast f o = OZ.Fungible.allowance s.ast f o - ret) ∧
+      (∀ p q, ¬ (p = f ∧ q = o ∧ o ≠ f) → OZ.Fungible.allowance s'.ast p q = OZ.Fungible.allowance s.ast p q) ∧
+      (∀ p q, OZ.Fungible.allowance s'.sh p q = OZ.Fungible.allowance s.sh p q)) := by
+  constructor
+  · intro h
+    obtain ⟨_, -, h⟩ := bind_eq_ok h
+    obtain ⟨_, -, h⟩ := bind_eq_ok h
+    obtain ⟨v', -, h⟩ := bind_eq_ok h
+    obtain ⟨s1, h4, h5⟩ := bind_eq_ok h
+    injection h5 with h5; injection h5 with h5 h6; subst h5; subst h6
+    obtain ⟨a1, a2, a3⟩ := depositInternal_allowances h4
+    exact ⟨a1, a2, a3⟩
+  · intro h
+    obtain ⟨_, -, h⟩ := bind_eq_ok h
+    obtain ⟨_, -, h⟩ := bind_eq_ok h
+    obtain ⟨a', -, h⟩ := bind_eq_ok h
+    obtain ⟨s1, h4, h5⟩ := bind_eq_ok h
+    injection h5 with h5; injection h5 with h5 h6; subst h5; subst h6
+    obtain ⟨a1, a2, a3⟩ := depositInternal_allowances h4
+    exact ⟨a1, a2, a3⟩
+
+/-! ## 10. the operations fail only when they must
+
+`CanSpend c t owner spender amt` (Lemmas) is `spend_allowance`'s exact success condition:
+`0 ≤ amt ≤ allowance` and, for `amt > 0`, the stored `live_until_ledger` passes
+`set_allowance`'s bound `≤ now + max_entry_ttl − 1`. `CanPull` is `deposit_internal`'s asset
+leg: `0 ≤ assets ≤ balance(payer)`, and either the payer is the operator and authorized the
+nested `transfer`, or the operator authorized the nested `transfer_from` and `CanSpend` on
+the asset token. No storage, TTL or overflow failure exists beyond the listed conditions:
+under the C01 invariant the unchecked additions cannot overflow, and the vault never lacks
+the assets for an exit within `max_withdraw` / `max_redeem`. -/
+
+/-- **deposit succeeds iff** the operator authorized it, `assets ≤ max_deposit`, the
+conversion does not fail (`convert_to_shares_exact` says exactly when), the assets can be
+pulled, and the share supply stays within i128 -/
+theorem deposit_succeeds_iff {U : List Nat} (hn : U.Nodup) {c : Cfg} {s : State} (hw : WF U s)
+    (auth : List Nat) (sub : Bool) (a : Int) (r f o : Nat) :
+    (∃ s' v, deposit c s auth sub a r f o = .ok (s', v)) ↔
+      o ∈ auth ∧ a ≤ I128_MAX ∧ ∃ v, previewDeposit s a = .ok v ∧
+        CanPull c s (tokenAuth s auth sub) f o a ∧ s.sh.supply + v ≤ I128_MAX := by
+  obtain ⟨hA, hS, hV, -⟩ := wf_pos hw
+  constructor
+  · rintro ⟨s', v, h⟩
+    obtain ⟨h1, h2, h3, -, -⟩ := deposit_ok h
+    obtain ⟨_, -, h⟩ := bind_eq_ok h
+    obtain ⟨_, -, h⟩ := bind_eq_ok h
+    obtain ⟨v', h3', h⟩ := bind_eq_ok h
+    obtain ⟨s1, h4, h5⟩ := bind_eq_ok h
+    injection h5 with h5; injection h5 with h5 h6; subst h6
+    obtain ⟨k1, -, k3⟩ := (depositInternal_succeeds_iff hn hw _ r f o a v').1 ⟨s1, h4⟩
+    exact ⟨h1, h2, v', h3, k1, k3⟩
+  · rintro ⟨h1, h2, v, h3, k1, k3⟩
+    have hain : OZ.MulDiv.in128 a := by
+      have := k1.1
+      unfold OZ.MulDiv.in128 OZ.MulDiv.I128_MIN OZ.MulDiv.I128_MAX; unfold I128_MAX at h2; omega
+    obtain ⟨-, e, -⟩ := convertToShares_ok hain hw.off hA h3
+    have hv0 : 0 ≤ v := by
+      rw [e]; exact exactQ_nonneg .floor a _ _ k1.1 (by omega) (by omega) (by decide)
+    obtain ⟨s1, hs1⟩ := (depositInternal_succeeds_iff hn hw (tokenAuth s auth sub) r f o a v).2 ⟨k1, hv0, k3⟩
+    unfold deposit requireAuth
+    rw [(guard_ok_iff _ _).2 h1, ok_bind, (guard_ok_iff _ _).2 (show a ≤ maxDeposit from h2), ok_bind,
+      h3, ok_bind, hs1]
+    exact ⟨_, _, rfl⟩
+
+/-- **mint succeeds iff** the operator authorized it, `shares ≤ max_mint`, the conversion does
+not fail, the previewed assets can be pulled, and the share supply stays within i128 -/
+theorem mint_succeeds_iff {U : List Nat} (hn : U.Nodup) {c : Cfg} {s : State} (hw : WF U s)
+    (auth : List Nat) (sub : Bool) (x : Int) (r f o : Nat) :
+    (∃ s' a, mint c s auth sub x r f o = .ok (s', a)) ↔
+      o ∈ auth ∧ x ≤ I128_MAX ∧ ∃ a, previewMint s x = .ok a ∧
+        CanPull c s (tokenAuth s auth sub) f o a ∧ s.sh.supply + x ≤ I128_MAX := by
+  constructor
+  · rintro ⟨s', a, h⟩
+    obtain ⟨h1, h2, h3, -, -⟩ := mint_ok h
+    obtain ⟨_, -, h⟩ := bind_eq_ok h
+    obtain ⟨_, -, h⟩ := bind_eq_ok h
+    obtain ⟨a', h3', h⟩ := bind_eq_ok h
+    obtain ⟨s1, h4, h5⟩ := bind_eq_ok h
+    injection h5 with h5; injection h5 with h5 h6; subst h6
+    obtain ⟨k1, -, k3⟩ := (depositInternal_succeeds_iff hn hw _ r f o a' x).1 ⟨s1, h4⟩
+    exact ⟨h1, h2, a', h3, k1, k3⟩
+  · rintro ⟨h1, h2, a, h3, k1, k3⟩
+    have hx0 : 0 ≤ x := by
+      unfold previewMint convertToAssets at h3
+      by_contra hneg
+      rw [if_pos (by omega)] at h3; cases h3
+    obtain ⟨s1, hs1⟩ := (depositInternal_succeeds_iff hn hw (tokenAuth s auth sub) r f o a x).2 ⟨k1, hx0, k3⟩
+    unfold mint requireAuth
+    rw [(guard_ok_iff _ _).2 h1, ok_bind, (guard_ok_iff _ _).2 (show x ≤ maxMint from h2), ok_bind,
+      h3, ok_bind, hs1]
+    exact ⟨_, _, rfl⟩
+
+/-- **withdraw succeeds iff** the operator authorized it, `max_withdraw(owner)` can be
+computed and covers `assets`, the conversion does not fail, and — only when the operator is
+not the owner — the share allowance can be spent. It never fails for lack of the owner's
+shares or of the vault's assets. -/
+theorem withdraw_succeeds_iff {U : List Nat} (hn : U.Nodup) {c : Cfg} {s : State} (hw : WF U s)
+    (auth : List Nat) (a : Int) (r ow o : Nat) :
+    (∃ s' v, withdraw c s auth a r ow o = .ok (s', v)) ↔
+      o ∈ auth ∧ ∃ m, maxWithdraw s ow = .ok m ∧ a ≤ m ∧ ∃ v, previewWithdraw s a = .ok v ∧
+        (o ≠ ow → CanSpend c s.sh ow o v) := by
+  constructor
+  · rintro ⟨s', v, h⟩
+    obtain ⟨h1, ⟨m, hm, hle⟩, h3, -, -⟩ := withdraw_ok h
+    obtain ⟨_, -, h⟩ := bind_eq_ok h
+    obtain ⟨m', -, h⟩ := bind_eq_ok h
+    obtain ⟨_, -, h⟩ := bind_eq_ok h
+    obtain ⟨v', h3', h⟩ := bind_eq_ok h
+    obtain ⟨s1, h4, h5⟩ := bind_eq_ok h
+    injection h5 with h5; injection h5 with h5 h6; subst h6
+    obtain ⟨k1, -⟩ := (withdrawInternal_succeeds_iff hn hw r ow o a v').1 ⟨s1, h4⟩
+    exact ⟨h1, m, hm, hle, v', h3, k1⟩
+  · rintro ⟨h1, m, hm, hle, v, h3, k1⟩
+    obtain ⟨f1, f2, f3, f4⟩ := withdraw_feasible hn hw hm hle h3
+    obtain ⟨s1, hs1⟩ := (withdrawInternal_succeeds_iff hn hw r ow o a v).2 ⟨k1, f3, f1, f4, f2⟩
+    unfold withdraw requireAuth
+    rw [(guard_ok_iff _ _).2 h1, ok_bind, hm, ok_bind, (guard_ok_iff _ _).2 hle, ok_bind, h3, ok_bind, hs1]
+    exact ⟨_, _, rfl⟩
+
+/-- **redeem succeeds iff** the operator authorized it, `shares ≤ max_redeem(owner)` (the
+owner's balance), the conversion does not fail, and — only when the operator is not the
+owner — the share allowance can be spent -/
+theorem redeem_succeeds_iff {U : List Nat} (hn : U.Nodup) {c : Cfg} {s : State} (hw : WF U s)
+    (auth : List Nat) (x : Int) (r ow o : Nat) :
+    (∃ s' a, redeem c s auth x r ow o = .ok (s', a)) ↔
+      o ∈ auth ∧ x ≤ s.sh.bal ow ∧ ∃ a, previewRedeem s x = .ok a ∧
+        (o ≠ ow → CanSpend c s.sh ow o x) := by
+  constructor
+  · rintro ⟨s', a, h⟩
+    obtain ⟨h1, h2, h3, -, -⟩ := redeem_ok h
+    obtain ⟨_, -, h⟩ := bind_eq_ok h
+    obtain ⟨_, -, h⟩ := bind_eq_ok h
+    obtain ⟨a', h3', h⟩ := bind_eq_ok h
+    obtain ⟨s1, h4, h5⟩ := bind_eq_ok h
+    injection h5 with h5; injection h5 with h5 h6; subst h6
+    obtain ⟨k1, -⟩ := (withdrawInternal_succeeds_iff hn hw r ow o a' x).1 ⟨s1, h4⟩
+    exact ⟨h1, h2, a', h3, k1⟩
+  · rintro ⟨h1, h2, a, h3, k1⟩
+    obtain ⟨f1, f2, f3⟩ := redeem_feasible hn hw h2 h3
+    obtain ⟨s1, hs1⟩ := (withdrawInternal_succeeds_iff hn hw r ow o a x).2 ⟨k1, f3, h2, f2, f1⟩
+    unfold redeem requireAuth
+    rw [(guard_ok_iff _ _).2 h1, ok_bind, (guard_ok_iff _ _).2 (show x ≤ maxRedeem s ow from h2), ok_bind,
+      h3, ok_bind, hs1]
+    exact ⟨_, _, rfl⟩
+
+/-! ## 11. every holder's claim only grows through other people's operations -/
+
+/-- **per-user solvency over histories**: over any history in which `u`'s share balance does
+not end lower than it started, what `u` could redeem, `⌊bal_u·(A+1)/(S+V)⌋`, does not end
+lower either (corollary of `rate_monotone_run`) -/
+theorem claim_monotone_run {U : List Nat} (hn : U.Nodup) (c : Cfg) (ops : List (List Nat × Op))
+    {s : State} (hw : WF U s)
+    (hadm : ∀ x ∈ ops, s.vault ∉ x.1 ∧ ∀ a ∈ x.2.addrs, a ∈ U) (u : Nat)
+    (hb : s.sh.bal u ≤ (run c s ops).sh.bal u) :
+    OZ.MulDiv.exactQ .floor (s.sh.bal u) (totalAssets s + 1) (totalShares s + 10 ^ s.offset) ≤
+    OZ.MulDiv.exactQ .floor ((run c s ops).sh.bal u) (totalAssets (run c s ops) + 1)
+      (totalShares (run c s ops) + 10 ^ (run c s ops).offset) := by
+  obtain ⟨w, r, -, -⟩ := rate_monotone_run hn c ops hw hadm
+  obtain ⟨a1, t1, v1, -⟩ := wf_pos hw
+  obtain ⟨a2, t2, v2, -⟩ := wf_pos w
+  exact floor_claim_mono _ _ _ _ _ _ (hw.sh.nonneg u) hb (by omega) (by omega) (by omega) r
+
+/-- a user who signs nothing and has approved nobody on the share token keeps (at least) his
+shares through any history, and still has approved nobody -/
+theorem passive_user_keeps_shares (c : Cfg) (ops : List (List Nat × Op)) {s : State} (u : Nat)
+    (hu : ∀ x ∈ ops, u ∉ x.1) (hnone : ∀ sp, s.sh.allow u sp = none) :
+    s.sh.bal u ≤ (run c s ops).sh.bal u ∧ ∀ sp, (run c s ops).sh.allow u sp = none := by
+  induction ops generalizing s with
+  | nil => exact ⟨Int.le_refl _, hnone⟩
+  | cons x xs ih =>
+    have hstep : s.sh.bal u ≤ (step c s x).sh.bal u ∧ ∀ sp, (step c s x).sh.allow u sp = none := by
+      unfold step
+      cases hx : apply c s x.1 x.2 with
+      | error e => exact ⟨Int.le_refl _, hnone⟩
+      | ok rr => obtain ⟨s', ret⟩ := rr; exact apply_passive x.1 x.2 u (hu x List.mem_cons_self) hnone hx
+    obtain ⟨i1, i2⟩ := ih (s := step c s x) (fun y hy => hu y (List.mem_cons_of_mem _ hy)) hstep.2
+    simp only [run, List.foldl_cons] at *
+    exact ⟨Int.le_trans hstep.1 i1, i2⟩
+
+/-- **through other users' operations a holder's redeemable assets never decrease**: for a
+user who signs nothing and has approved nobody, over every history -/
+theorem passive_claim_never_decreases {U : List Nat} (hn : U.Nodup) (c : Cfg)
+    (ops : List (List Nat × Op)) {s : State} (hw : WF U s)
+    (hadm : ∀ x ∈ ops, s.vault ∉ x.1 ∧ ∀ a ∈ x.2.addrs, a ∈ U) (u : Nat)
+    (hu : ∀ x ∈ ops, u ∉ x.1) (hnone : ∀ sp, s.sh.allow u sp = none) :
+    OZ.MulDiv.exactQ .floor (s.sh.bal u) (totalAssets s + 1) (totalShares s + 10 ^ s.offset) ≤
+    OZ.MulDiv.exactQ .floor ((run c s ops).sh.bal u) (totalAssets (run c s ops) + 1)
+      (totalShares (run c s ops) + 10 ^ (run c s ops).offset) :=
+  claim_monotone_run hn c ops hw hadm u (passive_user_keeps_shares c ops u hu hnone).1
+
+/-! ### non-vacuity (tests): the state of the demo history after the approval `0 → 2` of one
+share: operator 2 redeems owner 0's share (allowance 1 → 0), operator 1 cannot; the passive
+victim 1's claim rises from 666666666666666667 to 666666666666666668 -/
+
+def demoMid : State := run ⟨1, 1000⟩ demoStart (demoOps.take 6)
+
+example : OZ.Fungible.allowance demoMid.sh 0 2 = 1 ∧ demoMid.sh.bal 0 = 1 ∧ demoMid.sh.bal 1 = 1 := by
+  decide
+
+example :
+    okAnd (redeem ⟨1, 1000⟩ demoMid [2] 1 3 0 2) (fun s' a =>
+      decide (OZ.Fungible.allowance s'.sh 0 2 = 0 ∧ a = 666666666666666667 ∧
+        OZ.MulDiv.exactQ .floor (s'.sh.bal 1) (totalAssets s' + 1) (totalShares s' + 1) =
+          666666666666666668)) = true ∧
+    OZ.MulDiv.exactQ .floor (demoMid.sh.bal 1) (totalAssets demoMid + 1) (totalShares demoMid + 1) =
+      666666666666666667 := by decide
+
+/-- the same call by operator 1, who holds no allowance from owner 0, a redeem of more than
+the balance, and a call the operator did not sign are rejected for exactly the reasons the
+iff theorems name -/
+example :
+    errIs (redeem ⟨1, 1000⟩ demoMid [1] 1 3 0 1) (.share .insufficientAllowance) = true ∧
+    errIs (redeem ⟨1, 1000⟩ demoMid [0] 2 3 0 0) .exceededMaxRedeem = true ∧
+    errIs (redeem ⟨1, 1000⟩ demoMid [1] 1 3 0 0) .auth = true := by decide
+
+example : CanSpend ⟨1, 1000⟩ demoMid.sh 0 2 1 ∧ ¬ CanSpend ⟨1, 1000⟩ demoMid.sh 0 1 1 := by
+  unfold CanSpend; decide
 
 end OZ.Vault
